@@ -80,6 +80,8 @@ class Recorder:
         self.samples = []
         self.violations = []
         self._per_sig = collections.Counter()
+        self._per_cap = collections.Counter()
+        self._known = None
         self.case_seed = None
         self.case_index = None
         self.replaying = replaying
@@ -104,14 +106,30 @@ class Recorder:
         facts: dict of mechanism facts used by known-finding predicates."""
         self._per_sig[sig] += 1
         self.counts["violations"] += 1
-        if self._per_sig[sig] <= self.MAX_VIOL_PER_SIG:
-            self.violations.append({
-                "sig": sig, "detail": _jsonable(detail), "facts": _jsonable(facts or {}),
-                "case_seed": self.case_seed, "case_index": self.case_index,
-            })
+        v = {"sig": sig, "detail": _jsonable(detail), "facts": _jsonable(facts or {}),
+             "case_seed": self.case_seed, "case_index": self.case_index}
+        # the cap is per (known finding | new, signature): occurrences of a recorded finding must never use up the
+        # slots of a NEW violation that happens to share their signature
+        cap_key = (self._known_id(v), sig)
+        self._per_cap[cap_key] += 1
+        if self._per_cap[cap_key] <= self.MAX_VIOL_PER_SIG:
+            self.violations.append(v)
         if self.replaying:
             print("  violation:", sig)
             print("   ", json.dumps(_jsonable(detail), default=str)[:2000])
+
+    def _known_id(self, v):
+        if self._known is None:
+            from . import findings as F
+            self._known = [(k["id"], F.PREDICATES.get(k["predicate"])) for k in load_known()
+                           if self.check_id in k.get("properties", []) and k.get("status") == "open"]
+        for fid, pred in self._known:
+            try:
+                if pred and pred(v):
+                    return fid
+            except Exception:
+                pass
+        return None
 
     def dump(self):
         return {
